@@ -167,6 +167,9 @@ def objective(desc: dict, x):
             for j in range(nobj):
                 vals[j] += g_family(fam if j == 0 else ("sphere" if fam != "sphere" else "linear"), z, coef[k % len(coef)] * (j + 1), shift[k % len(shift)])
             k += 1
+    sc = desc.get("scale")
+    if sc and sc != 1.0:
+        vals = [v * sc for v in vals]         # objective values of very small / very large magnitude
     off = desc.get("offset")
     if off:
         vals = [v + off for v in vals]        # an optimum value far from zero: converged costs agree in many digits
@@ -183,6 +186,9 @@ class RecTask(_m.Task):
         if REC.delay is not None:
             REC.delay(x)
         REC.record(_fix(_plain(x)), _fix(val), _site())
+        if self.data["desc"].get("scribble"):
+            for k in range(len(x)):           # a user objective that decodes / repairs its argument in place
+                x[k] = [0] * len(x[k]) if isinstance(x[k], list) else 1e9
         return val
 
 
